@@ -182,7 +182,24 @@ pub fn gen_program(d: &mut Dec, thorough: bool) -> Case {
             rx,
         });
     }
-    if d.chance(20) {
+    if d.chance(96) {
+        // keyword sets (with near twins): sibling states that differ deep inside, several
+        // targets on one class
+        let mi = d.below(modes.len());
+        let pi = d.below(modes[mi].pats.len());
+        modes[mi].pats[pi].rx = gen::gen_word_sets(d);
+    }
+    if d.chance(24) {
+        // a pattern that can never match a non-empty string (no accepting state of its own)
+        let mi = d.below(modes.len());
+        let pi = d.below(modes[mi].pats.len());
+        modes[mi].pats[pi].rx = match d.below(3) {
+            0 => crate::rx::Rx::Empty,
+            1 => crate::rx::Rx::Repeat(Box::new(crate::rx::Rx::Lit(gen::gen_char(d), crate::rx::LitForm::Verbatim)), 0, Some(0)),
+            _ => crate::rx::Rx::Repeat(Box::new(crate::rx::Rx::Group(Box::new(crate::rx::Rx::Empty), crate::rx::GroupKind::NonCapture)), 1, None),
+        };
+    }
+    if d.chance(56) {
         share_token_type(d, &mut modes);
     }
     Case {
@@ -238,9 +255,9 @@ impl Check for C02 {
     }
     fn cases(&self, thorough: bool) -> usize {
         if thorough {
-            60_000
+            80_000
         } else {
-            2_500
+            4_000
         }
     }
     fn fixed_cases(&self, _thorough: bool) -> Vec<Case> {
@@ -525,9 +542,9 @@ impl Check for C03 {
     }
     fn cases(&self, thorough: bool) -> usize {
         if thorough {
-            60_000
+            80_000
         } else {
-            2_500
+            4_000
         }
     }
     fn fixed_cases(&self, _thorough: bool) -> Vec<Case> {
